@@ -266,6 +266,40 @@ class _CanonStmts(ast.NodeTransformer):
     def _fold_returns(self, body):
         return self._ifexp_to_if(self._fold_pairs(self._loops_to_comprehensions(body)))
 
+    def _continue_guards(self, loop):
+        """in a loop body: `if c: continue; REST` -> `if not c: REST`"""
+        body = loop.body
+        for i, st in enumerate(body):
+            if (isinstance(st, ast.If) and not st.orelse and len(st.body) == 1 and isinstance(st.body[0], ast.Continue) and i + 1 < len(body)):
+                rest = ast.For(target=None, iter=None, body=body[i + 1:], orelse=[]) if False else None
+                inner = ast.If(test=_Canon().visit(ast.copy_location(ast.UnaryOp(op=ast.Not(), operand=st.test), st.test)), body=body[i + 1:], orelse=[])
+                inner = ast.copy_location(inner, st)
+                # the rest may itself start with guards
+                tmp = type(loop)() if False else None
+                holder = ast.While(test=ast.Constant(value=True), body=inner.body, orelse=[])
+                self._continue_guards(holder)
+                inner.body = holder.body
+                # nested `if`s without else merge into one test (as visit_If does)
+                if len(inner.body) == 1 and isinstance(inner.body[0], ast.If) and not inner.body[0].orelse:
+                    nxt = inner.body[0]
+                    vals = []
+                    for t in (inner.test, nxt.test):
+                        vals += t.values if isinstance(t, ast.BoolOp) and isinstance(t.op, ast.And) else [t]
+                    inner.test = ast.copy_location(ast.BoolOp(op=ast.And(), values=vals), inner.test)
+                    inner.body = nxt.body
+                loop.body = body[:i] + [inner]
+                return
+
+    def visit_For(self, node):
+        self._continue_guards(node)
+        self.generic_visit(node)
+        return node
+
+    def visit_While(self, node):
+        self._continue_guards(node)
+        self.generic_visit(node)
+        return node
+
     def _loops_to_comprehensions(self, body):
         """`xs = []; for a in it: [if c:] xs.append(e)` -> `xs = [e for a in it if c]` (xs not read by e / c; no nested scope
         in the loop that could tell a comprehension variable from a function local)"""
